@@ -470,7 +470,7 @@ long verif::verif_ncases(const std::string & tier) {
         g_subj.push_back({sp->name, false, [sp](uint64_t ps, int) { Obj o = sp->make(ps); return runSteps(o, sp->nsteps); }});
         g_stepOf.push_back((int)i);
     }
-    return (long)g_subj.size() * (tier == "thorough" ? 40 : 4);
+    return (long)g_subj.size() * (tier == "thorough" ? 60 : 8);
 }
 
 static void emit(const char * name, const char * scen, const Out & a, const Out & b, const char * op = "same") {
